@@ -471,7 +471,13 @@ impl RawAutomaton {
         let mut power_transitions = Vec::with_capacity(self.transitions.len());
         let mut final_states =
             FxHashSet::with_capacity_and_hasher(self.final_states.len(), FxBuildHasher);
-        let markers = Vec::from_iter(self.markers.clone());
+        // Completion adds transitions on unmarked letters, even if `self` has no
+        // transition at all (e.g. the automaton of the empty word).
+        let mut all_markers = self.markers.clone();
+        if completion {
+            all_markers.insert(0);
+        }
+        let markers = Vec::from_iter(all_markers.clone());
 
         while let Some(power_state) = pending.pop() {
             if let Entry::Vacant(entry) = visited.entry(power_state.clone()) {
@@ -533,7 +539,7 @@ impl RawAutomaton {
             initial_state: 0,
             final_states,
             transitions,
-            markers: self.markers,
+            markers: all_markers,
         }
     }
 
@@ -688,7 +694,9 @@ impl RawAutomaton {
             // False in general, but true in many practical cases. Will be double checked in the
             // next instruction.
             deterministic: false,
-            complete: automata.iter().all(|a| a.complete),
+            // (The automaton of the empty word, obtained for an empty sequence, is not
+            // complete.)
+            complete: !automata.is_empty() && automata.iter().all(|a| a.complete),
             final_states,
             initial_state,
             markers,
